@@ -217,10 +217,12 @@ def classify(res, q):
     res['known'] = kf
     res['n_ok'] = ok
     res['n_reach'] = reach_ok
-    if viol:
-        res['status'] = 'violation'
-    elif inconc:
+    # a failed unwinding assertion or exceeded model bound means the encoding was cut short: the
+    # run has no verdict at all (obligations reported as failed in such a run are not trusted)
+    if inconc:
         res['status'] = 'inconclusive'
+    elif viol:
+        res['status'] = 'violation'
     else:
         # Unreached witnesses do not change the verdict (on a modified tree a path may legitimately
         # have become unreachable, and the property then holds on it trivially); they are printed
